@@ -657,7 +657,7 @@ pub struct PointProfile {
     pub lambda_tail: f64,
     pub bm_extreme: f64,
 }
-pub const MODERATE: PointProfile = PointProfile { u_w: [0.5, 0.5, 0.0, 0.0], xi_w: [0.25, 0.1, 0.65, 0.0], lambda_tail: 0.03, bm_extreme: 0.03 };
+pub const MODERATE: PointProfile = PointProfile { u_w: [0.5, 0.5, 0.0, 0.0], xi_w: [0.25, 0.1, 0.57, 0.08], lambda_tail: 0.03, bm_extreme: 0.03 };
 pub const SECTOR: PointProfile = PointProfile { u_w: [0.3, 0.4, 0.2, 0.1], xi_w: [0.3, 0.2, 0.4, 0.1], lambda_tail: 0.1, bm_extreme: 0.1 };
 pub const CORNERS: PointProfile = PointProfile { u_w: [0.2, 0.2, 0.3, 0.3], xi_w: [0.3, 0.1, 0.3, 0.3], lambda_tail: 0.3, bm_extreme: 0.3 };
 
@@ -740,9 +740,13 @@ pub fn gen_point(t: &mut Tape, g: &G, prof: &PointProfile) -> (Vec<f64>, Vec<&'s
             2 => (0.3 + 0.7 * t.unit()).powf(om.max(1e-3)).clamp(1e-300, ONE_M),
             _ => {
                 classes.push("xi:tiny");
-                // exponent concentrated at 3..30 with a tail down to 1e-300
+                // exponent concentrated at 3..30 with a tail down to 1e-300 (and, rarely, the smallest positive number)
                 let r = t.unit();
-                10f64.powf(-(3.0 + 297.0 * r * r * r * r))
+                if r > 0.97 {
+                    5e-324
+                } else {
+                    10f64.powf(-(3.0 + 297.0 * r * r * r * r))
+                }
             }
         };
         x[2 * step + 1] = xi;
